@@ -422,8 +422,15 @@ pub fn factor_quartic_inner(
             eps_l_best = eps_l;
         }
     }
-    let d_2 = d_2_best;
+    let mut d_2 = d_2_best;
     let l_2 = l_2_best;
+    // d_2 is a difference of quantities of the size of b, phi and l_1^2; when it vanishes
+    // (the two quadratic factors have the same linear coefficient) what is left is rounding
+    // noise of either sign, which must not select the branch. The refinement below absorbs
+    // the error of treating it as zero.
+    if d_2.abs() <= 64.0 * f64::EPSILON * (b.abs() + phi.abs() + l_1 * l_1) {
+        d_2 = 0.0;
+    }
     let mut alpha_1;
     let mut beta_1;
     let mut alpha_2;
